@@ -40,7 +40,7 @@ def generate(rng, tier):
     cases = []
     thorough = tier == "thorough"
     specs = specs_pool(rng, 40 if thorough else 10)
-    for k in range(4000 if thorough else 500):
+    for k in range(4000 * TH if thorough else 500):
         sp = rng.choice(specs)
         raw = (k % 6 == 0)
         nodes = raw_doc(rng, sp) if raw else fix_widths(E.rand_doc(rng, sp, big=(k % 5 == 0), unknown_p=0.3))
